@@ -1,0 +1,32 @@
+//go:build verif
+
+package regex
+
+// C02 (a filter selects exactly the events that satisfy it): the fast matcher
+// that replaces regexp for simple wildcard patterns.  `*word` matches a value
+// that ENDS with the word — including the value that is exactly the word (`*`
+// matches the empty string) — and `word*` one that begins with it.  The
+// case-insensitive comparisons are the two closures of Match; the letter-case
+// folding itself (bytes.EqualFold) is an uninterpreted function of the two
+// slices (ASSUMED in spec/stdlib.assumed).
+// Checked by /verif/bin/govc.  Comment-only file.
+
+//@ func (*simpleRegex).Match$1
+//@   props C02
+//@   safe
+//@   pure
+//@   ensures [a-shorter-value-never-ends-with-the-word] implies(len(s) < len(suffix), !result)
+//@   ensures [the-last-len-word-bytes-are-compared-also-when-that-is-the-whole-value] implies(len(s) >= len(suffix), result == uf("foldEq", bool, s[len(s)-len(suffix):], suffix))
+//@ end
+
+//@ func (*simpleRegex).Match$2
+//@   props C02
+//@   safe
+//@   pure
+//@   ensures [a-shorter-value-never-begins-with-the-word] implies(len(s) < len(prefix), !result)
+//@   ensures [the-first-len-word-bytes-are-compared-also-when-that-is-the-whole-value] implies(len(s) >= len(prefix), result == uf("foldEq", bool, s[:len(prefix)], prefix))
+//@ end
+
+// The dispatch of Match on the two wildcard flags calls through function-typed
+// locals that hold either a closure or a bytes.* function (a dynamic call the
+// generator does not resolve): NOT under contract.
